@@ -119,6 +119,31 @@ func VerifHarness_MintToken_Deliver() {
 	}
 }
 
+// C22/C01/C02/C05: BurnToken of the token, the bancor coin or the pool token by
+// its owner or by another holder.  Burning is open to every holder of a burnable
+// token, takes exactly the value out of the sender's balance and of the volume,
+// and never leaves less than one pip of supply.
+func VerifHarness_BurnToken_Deliver() {
+	u := verifUniverse()
+	coin := types.CoinID(verifConfig("coin"))
+	signer := 1 + verifConfig("signerB")
+	sender := verifAddr(signer)
+	nonce0 := u.st.Accounts.GetNonce(sender)
+	data := BurnTokenDataV260{Coin: coin, Value: verifBigPos("value")}
+	tx := verifTx(nonce0+1, verifGasPrice(), 0, TypeBurnToken, data)
+	raw := verifSignBy(tx, signer)
+	vol0 := verifVolume(u, coin)
+	bal0 := new(big.Int).Set(u.st.Accounts.GetBalance(sender, coin))
+	resp, _, after := verifDeliverChecked(u, tx, raw, sender, nonce0)
+	if resp.Code == 0 {
+		verifAssert("C22:burn-only-burnable-token", coin != verifCoinBancor)
+		verifAssert("C02:burn-leaves-min-supply", after.get("volume."+coin.String()).Sign() > 0)
+		verifAssert("C22:burnt=value", new(big.Int).Sub(vol0, after.get("volume."+coin.String())).Cmp(data.Value) == 0)
+		verifAssert("C05:burn-debits-sender-by-value", new(big.Int).Sub(bal0, u.st.Accounts.GetBalance(sender, coin)).Cmp(data.Value) == 0)
+		verifAssert("C22:burn<=held", bal0.Cmp(data.Value) >= 0)
+	}
+}
+
 // C07/C05: a multisig wallet (owners 1,2,3; weights 1; threshold 1) edits its
 // owner list to one with more addresses than weights (config "extra" = number
 // of surplus addresses) or to a well-formed one, then a Send signed by the last
